@@ -845,8 +845,9 @@ def rule_R5(ctx, repo, flow):
               "rejects duplicate names, names equal to constructor arguments, names containing `__`",
               "_check_names: tests found %s, %d raise sites (need unique, ctor-conflict, separator with one rejection each)" % (sorted(kinds), n_raise),
               ctx.loc(mod, cn))
-    from ._c20_specs import check_names as _check_names_spec
+    from ._c20_specs import check_names as _check_names_spec, check_names_callers as _check_names_callers
     _check_names_spec(ctx, repo, rule="R5")
+    _check_names_callers(ctx, repo, rule="R5")
     _meta_exact(ctx, repo, meta, mod, gp, sp)
     # composites: get_params / set_params pass the same attribute, which is a constructor parameter (or property over one)
     n = 0
